@@ -129,7 +129,7 @@ TRUSTED_BASE = ["Lean 4.33 kernel; axioms allowed: propext, Classical.choice, Qu
                 "coap_free_type wrap: poison fill up to 64 MiB per allocation, live count, one injected coap_malloc_type failure by tag for adlx), harness/block_sim.h, harness/sim_core.h, generators, "
                 "the Python trace oracle (judge_xfer) and string comparison",
                 "M (CoapVerif/Model/Block.lean, BlockCrcv.lean, BlockXmit.lean, BlockRtag.lean, BlockTok.lean, BlockAdl.lean) is a hand transcription; checked "
-                "against the compiled code only on the cases run (ops srcv srcv2 srcv3 crcv crcvs crcvt ctok xmit1 xmit1t xmit2 adlx and the Layer A ops)",
+                "against the compiled code only on the cases run (ops srcv srcv2 srcv3 crcv crcvs crcvo crcvt ctok xmit1 xmit1t xmit2 adlx and the Layer A ops)",
                 "Layer B attribution: harness/block_sim.h maps a wire token to its transfer by the Uri-Path / Request-Tag of the client request "
                 "it first appeared in, and reads session->lg_crcv / lg_xmit inside the handlers to tell whether libcoap still holds the transfer"]
 ASSUMPTIONS = ["block numbers < 2^31 at every call of the range functions (coap_get_block_b rejects NUM > 0xFFFFF)",
@@ -1050,13 +1050,115 @@ def spec_xmit1t(w, i):
     return None
 
 
+def gen_crcvo(rng, n):
+    """the client's Block2 receive path at the END of the 20-bit block number space (round S09b; real
+    coap_handle_response_get_block, model crcvStepS): op `crcvo` = `crcvs` with a NUM OFFSET - the Block2 option on the wire
+    carries num + off, the payload is the slice of a small body at num - so that NUM 0xFFFFD..0xFFFFF are reached without a
+    16 MiB body.  M = 0/1 on every number (M = 1 on 0xFFFFF: the response fix 70f6ff3 refuses), SZX 0..6, with and without
+    Size2 (small, true-sized, per item), both delivery modes, with and without request PDU, with and without the initial
+    lg_crcv.  Single-body lines stay off coap_block_build_body (a buffer of NUM * chunk bytes, which the model's byte list
+    cannot hold): the lg_crcv is released by the first response (M on 0xFFFFF / undersized) or absent (random access)."""
+    L = []
+    TOP = 0xFFFFF
+    for _ in range(n):
+        szx = rng.randrange(7)
+        c = 1 << (szx + 4)
+        nb = rng.randrange(3, 6)                       # blocks 0 .. nb-1 of the small body
+        end = rng.choice([TOP, TOP, TOP, TOP - 1])     # wire number of the small body's last block
+        off = end - (nb - 1)
+        ln = rng.choice([nb * c, nb * c, nb * c - rng.randrange(1, c), nb * c + rng.randrange(1, c)])
+        if ln > nb * c:
+            ln = min(ln, 65536)
+        single = rng.choice([0, 0, 0, 1])
+        etag = rng.choice([0, 0, 5])
+        true_total = (off + nb) * c
+        size2 = rng.choice(["-", "-", str(ln), str(min(true_total, (1 << 32) - 1))])
+        def it(u, k, m, e=None, ln_=None, s2=None):
+            x = "%d.%d.%d.%d.%d.%d" % (u, k, m, szx, etag if e is None else e, 42)
+            if ln_ is not None or s2 is not None:
+                x += ".%d" % (c if ln_ is None else ln_)
+            if s2 is not None:
+                x += ".%d" % s2
+            return x
+        items = []
+        if single:
+            init = rng.choice([1, 1, 0])
+            if init:
+                # the first response releases the lg_crcv before anything is stored
+                if rng.random() < 0.7:
+                    items.append(it(rng.choice([0, 1]), TOP - off, 1))
+                else:
+                    items.append(it(rng.choice([0, 1]), rng.randrange(nb - 1), 1, ln_=rng.randrange(1, c)))
+            for _ in range(rng.randrange(1, 5)):
+                items.append(it(rng.choice([0, 1]), rng.randrange(nb), rng.choice([0, 1])))
+        else:
+            init = rng.choice([1, 1, 1, 0])
+            u0 = rng.choice([0, 0, 1])
+            kind = rng.choice(["walk", "walk", "walk", "lastm0", "jump", "mixed"])
+            start = rng.choice([0, nb - 3, nb - 2, nb - 1])
+            if kind == "walk":
+                # a server that keeps More set up to the very last number
+                items = [it(u0, k, 1) for k in range(start, nb)]
+            elif kind == "lastm0":
+                items = [it(u0, k, 1 if k < nb - 1 else 0) for k in range(start, nb)]
+            elif kind == "jump":
+                items = [it(u0, rng.randrange(nb), rng.choice([0, 1])) for _ in range(rng.randrange(1, 5))]
+            else:
+                for k in range(start, nb):
+                    items.append(it(rng.choice([0, 1]), k, rng.choice([1, 1, 0]), e=rng.choice([None, None, 0, 6]),
+                                    s2=rng.choice([None, None, 0, ln + 1, min(true_total, (1 << 32) - 1) + 1])))
+                    if rng.random() < 0.2:
+                        items.append(items[-1])
+            # after the refusal / the last block: copies, and the last number once more
+            r = rng.random()
+            if r < 0.35:
+                items.append(it(rng.choice([0, 1]), TOP - off if end == TOP else nb - 1, rng.choice([0, 1])))
+            elif r < 0.5:
+                items += [it(1, rng.randrange(nb), rng.choice([0, 1])) for _ in range(rng.randrange(1, 3))]
+        L.append("crcvo %d %d %d %s %d %d %s" % (single, ln, rng.randrange(256), size2, init, off, ",".join(items[:40])))
+    return L
+
+
+def spec_crcvo(w, i):
+    """I-vs-property for a `crcvo` line (from the harness line alone): every follow-up request the client transmits carries a
+    Block2 option a CoAP parser accepts (NUM <= 0xFFFFF, RFC7959 2.2; `+q?` = coap_get_block_b refused it) and, unless it
+    restarts the transfer at block 0, asks for the block after the one just received in the same size; whatever the handler is
+    given is the slice the response carried, at the offset its Block2 option names."""
+    single, ln, seed, noff = int(w[1]), int(w[2]), int(w[3]), int(w[6])
+    body = mk_body(ln, seed)
+    its = [x.split(".") for x in w[7].split(",")]
+    outs = i.replace(" UNINIT", "").split(",")
+    if len(outs) != len(its):
+        return "unparsable (%d items, %d outputs): %s" % (len(its), len(outs), i[:160])
+    for x, o in zip(its, outs):
+        k, m, szx = int(x[1]), int(x[2]), int(x[3])
+        c = 1 << (szx + 4)
+        num = k + noff
+        if "+q?" in o or "+q!" in o:
+            return "the response with Block2 NUM %d (0x%X) M %d was answered with a request whose Block2 option no parser accepts " \
+                   "(block number beyond 20 bits): %s" % (num, num, m, o)
+        for q in re.finditer(r"\+q(\d+)\.(\d+)", o):
+            qn, qs = int(q.group(1)), int(q.group(2))
+            if qn > 0xFFFFF or qs > 6:
+                return "follow-up request for block %d szx %d: outside the Block2 option: %s" % (qn, qs, o)
+            if qn != 0 and (qn != num + 1 or qs != szx or not m):
+                return "the response with Block2 NUM %d M %d SZX %d was answered with a request for block %d szx %d: %s" % (num, m, szx, qn, qs, o)
+        mm = re.match(r"([hH])(\d+):(\d+):(\d+):([0-9a-f]{8})", o)
+        if mm and not (single and mm.group(1) == "H"):
+            off, l, h = int(mm.group(2)), int(mm.group(3)), mm.group(5)
+            if l and (l > c or off != num * c or h != fnv(body[k * c:k * c + l])):
+                return "the response handler was given %s, which is not what the server sent in block %d" % (o, num)
+    return None
+
+
 def generate(ctx, escalate=False):
     n = 3000 if ctx.thorough() else 400
     if escalate:
         n *= 3
     return gen_layer_a(ctx, n) + gen_crcv(ctx.rng, n * 2) + gen_xmit(ctx.rng, n) + gen_rtag(ctx.rng, n) + gen_layer_b(ctx, n * 3) + \
         gen_crcv_hostile(ctx.rng, n * 2) + gen_xmit1_hostile(ctx.rng, n) + gen_srcv_hostile(ctx.rng, n * 2) + \
-        gen_crcvs(ctx.rng, n) + gen_ctok(ctx.rng, n) + gen_layer_b_rules(ctx, n) + gen_adlx(ctx.rng, n * 2) + gen_crcvt(ctx.rng, n * 2) + gen_xmit1t(ctx.rng, n * 2)
+        gen_crcvs(ctx.rng, n) + gen_ctok(ctx.rng, n) + gen_layer_b_rules(ctx, n) + gen_adlx(ctx.rng, n * 2) + gen_crcvt(ctx.rng, n * 2) + gen_xmit1t(ctx.rng, n * 2) + \
+        gen_crcvo(ctx.rng, n)
 
 
 # --------------------------------------------------------------------------
@@ -1274,6 +1376,10 @@ def spec_layer_a(ctx, c):
             return why
     elif op == "crcvt":
         why = spec_crcvt(w, i)
+        if why:
+            return why
+    elif op == "crcvo":
+        why = spec_crcvo(w, i)
         if why:
             return why
     elif op == "ctok":
@@ -1714,7 +1820,7 @@ def classify(c):
 def search(ctx, tie_breaks, proof):
     return gen_layer_a(ctx, 1500) + gen_crcv(ctx.rng, 3000) + gen_xmit(ctx.rng, 1500) + gen_rtag(ctx.rng, 1500) + \
         gen_crcv_hostile(ctx.rng, 3000) + gen_xmit1_hostile(ctx.rng, 1500) + gen_srcv_hostile(ctx.rng, 3000) + \
-        gen_crcvs(ctx.rng, 1500) + gen_ctok(ctx.rng, 1500) + gen_layer_b_rules(ctx, 600) + gen_adlx(ctx.rng, 1500) + gen_crcvt(ctx.rng, 1500) + gen_xmit1t(ctx.rng, 1500)
+        gen_crcvs(ctx.rng, 1500) + gen_ctok(ctx.rng, 1500) + gen_layer_b_rules(ctx, 600) + gen_adlx(ctx.rng, 1500) + gen_crcvt(ctx.rng, 1500) + gen_xmit1t(ctx.rng, 1500) + gen_crcvo(ctx.rng, 1500)
 
 
 def known(ctx, c):
